@@ -16,7 +16,7 @@ func configure(g *gen) {
 			{"writer", "responseWriter", "writer", T{"struct", "RW"}},
 			{"Req", "*http.Request", "req", T{"opaque", "Option Nat"}},           // nil or the identity of a request
 			{"Params", "Params", "params", T{"opaque", "Option GoRt.KV"}},        // nil or a map
-			{"data", "map[string]any", "data", T{"opaque", "Option GoRt.KV"}},    // nil or a map
+			{"data", "map[string]any", "data", T{"opaque", "Option GoRt.Data"}},  // nil or a map
 			{"Errors", "[]error", "errors", T{"opaque", "List Nat"}},             // the recorded errors (identities)
 			{"handlers", "HandlersChain", "handlers", T{"opaque", "List Unit"}}, // only the length matters here
 		}, Extra: []string{"respOwn : Bool := true", "ghost : γ"}},
@@ -171,4 +171,38 @@ func configure(g *gen) {
 	add(FnSpec{Recv: "Context", Func: "SetStatus", Lean: "Ctx.SetStatus"})
 	add(FnSpec{Recv: "Context", Func: "StatusCode", Lean: "Ctx.StatusCode"})
 	add(FnSpec{Recv: "Context", Func: "Length", Lean: "Ctx.Length"})
+	// dispatch.go: the skeleton of `handleHTTPRequest` — deferred recover (when OnPanic is set), choice of the request
+	// path, QuickMatch, the context prelude and the chain by kind of result (global ++ route/405/404 handlers ++ main
+	// handler), Next, OnError when errors were recorded, the final commit — over an environment: QuickMatch, the
+	// chain run (`Next`) and the two hooks are operations that return the new context and possibly a panic
+	hRet := "(s, ctx, some p)"
+	add(FnSpec{Recv: "Router", Func: "handleHTTPRequest", Lean: "Router.handleHTTPRequest",
+		Extra:    []string{"{σ ρ η : Type}", "(env : GoRt.HEnv σ ρ η (Ctx γ))", "(s0 : σ)"},
+		Prologue: []string{"let mut s := s0", "let mut hchain : List η := []"},
+		RetExtra: []string{"s", "ctx", "(none : Option Panic)"}, RetExtraT: []string{"σ", "Ctx γ", "Option Panic"},
+		MutParams: []string{"ctx"}, DeferRecover: true, PnIndex: 2,
+		Types: map[string]T{"rux.Params": {"opaque", "Option GoRt.KV"}, "rux.HandlerFunc": {"opaque", "Option η"},
+			"rux.HandlersChain": {"opaque", "List η"}},
+		Exts: []Ext{
+			{Callee: "$.OnPanic", Value: "(env.onPanicH s)", T: T{"opaque", "Option η"},
+				Stmts: []string{"let %t := env.onPanic s %1", "s := %t.1", "ctx := %t.2.1", "if let some p := %t.2.2 then return " + hRet}},
+			{Callee: "$.OnError", Value: "(env.onErrorH s)", T: T{"opaque", "Option η"},
+				Stmts: []string{"let %t := env.onError s %1", "s := %t.1", "ctx := %t.2.1", "if let some p := %t.2.2 then return " + hRet}},
+			{Callee: "_.Set", Stmts: []string{"ctx := { %1 with data := GoRt.dataSet (%1).data %2 (GoRt.ToDV.toDV %3) }"}},
+			{Callee: "_.Req.URL.Path", Value: "(env.urlPath (%1).req)", T: tStr},
+			{Callee: "_.Req.URL.EscapedPath", Value: "(env.escapedPath (%1).req)", T: tStr},
+			{Callee: "_.Req.Method", Value: "(env.method (%1).req)", T: tStr},
+			{Callee: "$.QuickMatch", Stmts: []string{"let %t := env.quickMatch s %1 %2", "s := %t.1", "if let some p := %t.2.2.2.2 then return " + hRet},
+				Values: []string{"%t.2.1", "%t.2.2.1", "%t.2.2.2.1"}, Ts: []T{{"opaque", "Option ρ"}, {"opaque", "Option GoRt.KV"}, tStrList}},
+			{Callee: "_.name", Value: "(env.routeName %1)", T: tStr},
+			{Callee: "_.handlers", Value: "(env.routeHandlers %1)", T: T{"opaque", "List η"}},
+			{Callee: "_.handler", Value: "(env.routeHandler %1)", T: T{"opaque", "Option η"}},
+			{Callee: "$.noAllowed", Value: "(env.noAllowed s)", T: T{"opaque", "List η"}},
+			{Callee: "$.noRoute", Value: "(env.noRoute s)", T: T{"opaque", "List η"}},
+			{Callee: "$.handlers", Value: "(env.globalHandlers s)", T: T{"opaque", "List η"}},
+			{Callee: "default405Handlers", Value: "env.default405", T: T{"opaque", "List η"}},
+			{Callee: "default404Handlers", Value: "env.default404", T: T{"opaque", "List η"}},
+			{Callee: "_.SetHandlers", Stmts: []string{"hchain := %2", "ctx := { %1 with handlers := (%2).map (fun _ => ()) }"}},
+			{Callee: "_.Next", Stmts: []string{"let %t := env.next s %1 hchain", "s := %t.1", "ctx := %t.2.1", "if let some p := %t.2.2 then return " + hRet}},
+		}})
 }
